@@ -786,6 +786,7 @@ class Interp(EvalMixin, BuiltinMixin):
         if outcome == "return":
             run.reached("return")
             sfr.locals["result"] = value
+            sfr.parent = fr        # ghost access to the function's final locals (parameters shadow them)
             for k, (exc_name, when, iff) in enumerate(con.raises_):
                 if iff:
                     w = pre_when[k] if k in pre_when else zbool(truth(self.ev(parse_expr(when), self._old_frame(sfr))))
